@@ -251,7 +251,24 @@ where
 
             // The length does not matter anymore and `curr_line` will be reset
             // at the end, so move the line segments out.
+            let line_is_empty = !curr_line.has_text();
             let mut line_segments = curr_line.line_segments;
+
+            // A character which is too wide even for an empty line (e.g. a double-width
+            // character when only one column is left beside the wrap symbol) can never be
+            // placed, and trying again on the next line would loop forever if the number of
+            // lines is unlimited. Stop wrapping then: the rest is added to the last line and
+            // truncated later.
+            if max_lines == 0
+                && line_is_empty
+                && graphemes.first().is_some_and(|&(_, w)| w > width_left)
+            {
+                // (keep zero-width segments already collected for this line)
+                stack.extend(line_segments.into_iter().rev());
+                stack.push((style, text));
+                curr_line = CurrLine::reset();
+                break Stop::LineLimit;
+            }
 
             let next_line = if width_left == 0 {
                 text
